@@ -435,6 +435,7 @@ DS_FEATS = ["area_um", "deform", "bright_avg"]
 
 
 def gen_ds_case(rng, thorough):
+    import numpy as np
     n = max(1, gen_size(rng, thorough, big_ok=False))
     if n > 150:
         n = n // 4
@@ -449,34 +450,71 @@ def gen_ds_case(rng, thorough):
                         special=rng.choice(["none", "none", "few", "one",
                                             "edges"]),
                         positive=int(rng.random() < 0.7))
+    case = dict(kind="ds", seed=seed, n=n, feats=feats)
+    data = ds_arrays(case)
+
+    def quant(f, qlo, qhi):
+        v = np.sort(data[f][np.isfinite(data[f])]) * 8
+        if len(v) == 0:
+            return [0, 8]
+        lo = int(v[int(qlo * (len(v) - 1))])
+        hi = int(v[int(qhi * (len(v) - 1))])
+        return [lo, hi]
+    # filters that keep a data dependent part of the events
     box = {}
+    est = np.ones(n, dtype=bool)
     for f in DS_FEATS:
-        if rng.random() < 0.4:
-            lo = rng.randint(-100, 2000)
-            box[f] = [lo, lo + rng.choice([0, 5, 50, 500, 5000])]
+        if rng.random() < 0.35:
+            c = rng.random()
+            if c < 0.1:
+                lo = rng.randint(-100, 2000)
+                box[f] = [lo, lo + rng.choice([0, 5, 50, 500])]
+            else:
+                box[f] = quant(f, rng.choice([0, 0, 0.1, 0.3]),
+                               rng.choice([1, 1, 0.9, 0.6]))
+            lo, hi = box[f]
+            if lo != hi:
+                with np.errstate(all="ignore"):
+                    est &= (data[f] * 8 >= lo) & (data[f] * 8 <= hi)
     manual = sorted(set(rng.randint(0, n - 1)
-                        for _ in range(rng.choice([0, 0, 1, 3, n // 2]))))
+                        for _ in range(rng.choice([0, 0, 1, 3, n // 3]))))
+    est[manual] = False
+    rie = int(rng.random() < 0.3)
+    if rie:
+        for f in DS_FEATS:
+            est &= np.isfinite(data[f])
     poly = None
     if rng.random() < 0.3:
-        x0, y0 = rng.randint(-100, 1000), rng.randint(-100, 1000)
-        w, h = rng.choice([10, 200, 4000]), rng.choice([10, 200, 4000])
+        xl, xh = quant("area_um", rng.choice([0, 0.2]), rng.choice([1, 0.7]))
+        yl, yh = quant("deform", rng.choice([0, 0.2]), rng.choice([1, 0.7]))
         poly = dict(axes=["area_um", "deform"],
-                    points=[[x0, y0], [x0 + w, y0], [x0 + w // 2, y0 + h]])
-    limit = rng.choice([0, 0, 1, 2, n // 2, n - 1, n, n + 1, 2 * n,
-                        rng.randint(1, n)])
+                    points=[[xl - 1, yl - 1], [xh + 1, yl - 1],
+                            [xh + 1, yh + 1], [xl - 1, yh + 1]]
+                    if rng.random() < 0.6 else
+                    [[xl - 1, yl - 1], [2 * xh - xl + 3, yl - 1],
+                     [xl - 1, 2 * yh - yl + 3]])
+        with np.errstate(all="ignore"):
+            est &= (data["area_um"] * 8 >= xl) & (data["area_um"] * 8 <= xh)
+    enable = int(rng.random() < 0.9)
+    cnt = int(est.sum()) if enable else n      # estimate, polygon approximate
+    limit = rng.choice([0, 0, 1, 2, cnt // 2, cnt - 1, cnt, cnt + 1, 2 * n,
+                        rng.randint(1, max(1, cnt))])
+    limit = max(0, int(limit))
+    cnt2 = min(limit, cnt) if (limit > 0 and enable) else cnt
     reqs = []
     for _ in range(rng.randint(2, 4)):
         xax, yax = rng.sample(DS_FEATS, 2)
-        reqs.append(dict(xax=xax, yax=yax,
-                         downsample=rng.choice([0, 1, 2, n // 3, n // 2, n - 1,
-                                                n, n + 1, 3 * n,
-                                                rng.randint(1, n)]),
+        d = rng.choice([0, 1, 2, cnt2 // 3, cnt2 // 2, cnt2 - 1, cnt2,
+                        cnt2 + 1, n, n + 1, 3 * n,
+                        rng.randint(1, max(1, cnt2)),
+                        rng.randint(1, max(1, cnt2))])
+        reqs.append(dict(xax=xax, yax=yax, downsample=max(0, int(d)),
                          xscale=rng.choice(["linear", "log"]),
                          yscale=rng.choice(["linear", "linear", "log"]),
                          ri=int(rng.random() < 0.5)))
-    return dict(kind="ds", seed=seed, n=n, feats=feats, box=box, manual=manual,
-                poly=poly, limit=int(limit), enable=int(rng.random() < 0.9),
-                rie=int(rng.random() < 0.3), requests=reqs)
+    case.update(box=box, manual=manual, poly=poly, limit=limit, enable=enable,
+                rie=rie, requests=reqs)
+    return case
 
 
 def ds_arrays(case):
